@@ -418,3 +418,12 @@ func DeepCopy(v interface{}) interface{} {
 
 // Num converts a generic JSON number to float64.
 func Num(v interface{}) (float64, bool) { return num(v) }
+
+// MustGenericSafe converts v to generic JSON; on failure it returns a printable placeholder.
+func MustGenericSafe(v interface{}) interface{} {
+	g, err := Generic(v)
+	if err != nil {
+		return fmt.Sprintf("%v", v)
+	}
+	return g
+}
